@@ -102,7 +102,9 @@ class CHECK(Check):
         small-int cache, floats, strings built at run time, an int filter against a float attribute): matching is by value"""
         if v is None:
             return None
-        base = {1: 1001, 2: 1002, 7: 120.5, 8: 121.5, 9: "Nine"}.get(v, v)
+        base = {1: 1001, 2: 1002, 7: 120.5, 8: (1001, 120.5, 1002), 9: "Nine"}.get(v, v)
+        if isinstance(base, tuple):
+            return tuple(list(base)) if fresh else base
         if not fresh:
             return base
         if isinstance(base, str):
